@@ -269,7 +269,11 @@ def rle_bounded(quick):
             d = list(t)
             for page in (None, 5):
                 n += 1
-                blk = list(z._make_z80_ram_block(d, page))
+                try:
+                    blk = list(z._make_z80_ram_block(d, page))
+                except Exception as ex:
+                    bad.append(('exception', d, page, repr(ex)))
+                    continue
                 body = blk[:-4] if page is None else blk[3:]
                 if page is not None and blk[0] + 256 * blk[1] != len(body):
                     bad.append(('length', d, page))
@@ -291,8 +295,12 @@ def rle_bounded(quick):
                 for post in ((), (237,), (9,)):
                     n += 1
                     d = list(pre) + [v] * run + list(post)
-                    body = list(z._make_z80_ram_block(d, 5))[3:]
-                    if z._decompress(body) != d:
+                    try:
+                        body = list(z._make_z80_ram_block(d, 5))[3:]
+                        back = z._decompress(body)
+                    except Exception as ex:
+                        back = repr(ex)
+                    if back != d:
                         bad.append(('run', run, v, pre, post))
                         if len(bad) > 5:
                             return n, bad
